@@ -10,6 +10,11 @@ import sys
 import time
 
 res = []
+try:
+    res = [r for r in json.load(open("/verif/fix_validation.json")) if r.get("result") == "detected"]
+except Exception:
+    res = []
+done = {r["commit"] for r in res}
 kf = json.load(open("/verif/known_findings.json"))
 only = set(sys.argv[1:])
 assert subprocess.run(["git", "-C", "/repo", "status", "--porcelain", "--untracked-files=no"], capture_output=True, text=True).stdout.strip() == "", "/repo not clean"
@@ -17,6 +22,8 @@ for entry in kf["fixed"]:
     m = re.match(r"fixed: property=(C\d+) ([0-9a-f]{7,}) (.*)", entry)
     prop, commit, what = m.groups()
     if only and prop not in only and commit not in only:
+        continue
+    if commit in done:
         continue
     diff = subprocess.run(["git", "-C", "/repo", "show", "--format=", commit], capture_output=True, text=True).stdout
     p = subprocess.run(["git", "-C", "/repo", "apply", "-R", "--3way"], input=diff, capture_output=True, text=True)
